@@ -102,6 +102,9 @@ def extra_streams(rng, tier):
 def monitor(case):
     if case.get("sim_violation"):
         return case["sim_violation"]
+    if case.get("replay_mismatch"):
+        return ("a scheduler call captured inside the Simulator returned %r, but the same algorithm on the same "
+                "sessions / infrastructure through the stub interface returns %r" % (case.get("sim_out"), case["impl"]["sched"]))
     if case.get("ambiguous"):
         return None
     return sm.monitor_c07(case["input"], case["impl"])
